@@ -371,42 +371,84 @@ func c09ArchOrder(fd *ast.FuncDecl, rel string) (string, ast.Node) {
 		}
 		return strip(be.X) == k+"["+ps[0]+"]" && strip(be.Y) == k+"["+ps[1]+"]"
 	}
+	ascendingCmp := func(fl *ast.FuncLit) bool { // func(a, b T) int { return cmp.Compare(a, b) } / strings.Compare(string(a), string(b))
+		var ps []string
+		for _, f := range fl.Type.Params.List {
+			for _, nm := range f.Names {
+				ps = append(ps, nm.Name)
+			}
+		}
+		if len(ps) != 2 || len(fl.Body.List) != 1 {
+			return false
+		}
+		ret, ok := fl.Body.List[0].(*ast.ReturnStmt)
+		if !ok || len(ret.Results) != 1 {
+			return false
+		}
+		c, ok := unparen(ret.Results[0]).(*ast.CallExpr)
+		if !ok || len(c.Args) != 2 || (exprText(c.Fun) != "cmp.Compare" && exprText(c.Fun) != "strings.Compare") {
+			return false
+		}
+		strip := func(e ast.Expr) string {
+			e = unparen(e)
+			if cc, ok := e.(*ast.CallExpr); ok && len(cc.Args) == 1 && exprText(cc.Fun) == "string" {
+				e = unparen(cc.Args[0])
+			}
+			return exprText(e)
+		}
+		return strip(c.Args[0]) == ps[0] && strip(c.Args[1]) == ps[1]
+	}
 	x := unparen(loop.X)
 	if sortedKeys(x) {
 		return "sorted", loop
 	}
 	if id, ok := x.(*ast.Ident); ok {
-		k := id.Name
-		isSorted := false
-		ast.Inspect(fd, func(n ast.Node) bool {
-			if n == nil || n.Pos() >= loop.Pos() {
-				return false // statements after (or inside) the loop do not order it
-			}
-			switch s := n.(type) {
-			case *ast.AssignStmt:
-				if len(s.Lhs) == 1 && len(s.Rhs) == 1 && exprText(s.Lhs[0]) == k && sortedKeys(s.Rhs[0]) {
-					isSorted = true
+		// the slice may have been handed over by an (inlined) helper: follow plain copies `k = k2` / `k := k2`
+		seen := map[string]bool{}
+		for k := id.Name; k != "" && !seen[k]; {
+			seen[k] = true
+			isSorted, next := false, ""
+			ast.Inspect(fd, func(n ast.Node) bool {
+				if n == nil || n.Pos() >= loop.Pos() {
+					return false // statements after (or inside) the loop do not order it
 				}
-			case *ast.ExprStmt:
-				c, ok := s.X.(*ast.CallExpr)
-				if !ok || len(c.Args) == 0 || exprText(c.Args[0]) != k {
-					return true
-				}
-				switch exprText(c.Fun) {
-				case "slices.Sort", "sort.Strings":
-					isSorted = len(c.Args) == 1
-				case "sort.Slice", "sort.SliceStable":
-					if len(c.Args) == 2 {
-						if fl, ok := c.Args[1].(*ast.FuncLit); ok && ascending(fl, k) {
+				switch s := n.(type) {
+				case *ast.AssignStmt:
+					if len(s.Lhs) == 1 && len(s.Rhs) == 1 && exprText(s.Lhs[0]) == k {
+						if sortedKeys(s.Rhs[0]) {
 							isSorted = true
+						} else if src, ok := unparen(s.Rhs[0]).(*ast.Ident); ok && src.Name != "nil" {
+							next = src.Name
+						}
+					}
+				case *ast.ExprStmt:
+					c, ok := s.X.(*ast.CallExpr)
+					if !ok || len(c.Args) == 0 || exprText(c.Args[0]) != k {
+						return true
+					}
+					switch exprText(c.Fun) {
+					case "slices.Sort", "sort.Strings":
+						isSorted = len(c.Args) == 1
+					case "sort.Slice", "sort.SliceStable":
+						if len(c.Args) == 2 {
+							if fl, ok := c.Args[1].(*ast.FuncLit); ok && ascending(fl, k) {
+								isSorted = true
+							}
+						}
+					case "slices.SortFunc", "slices.SortStableFunc":
+						if len(c.Args) == 2 {
+							if fl, ok := c.Args[1].(*ast.FuncLit); ok && ascendingCmp(fl) {
+								isSorted = true
+							}
 						}
 					}
 				}
+				return true
+			})
+			if isSorted {
+				return "sorted", loop
 			}
-			return true
-		})
-		if isSorted {
-			return "sorted", loop
+			k = next
 		}
 	}
 	// `for arch := range m` / `for arch, pkgs := range m`: the keys of a map, in Go's random order
